@@ -457,8 +457,13 @@ class Spectrum(object):
     def _getPSD(self):
         if self.__psd is None or self.modified is True:
             logging.debug('Computing PSD.')
+            sides = self.__sides
             self()
             self.modified = False
+            # the computation stores the PSD with the default sides; keep
+            # the layout the user asked for
+            if sides is not None and sides != self.__sides:
+                self.sides = sides
         return self.__psd
     def _setPSD(self, psd):
         # Reset the sides attribute depending on the datatype
@@ -574,6 +579,8 @@ class Spectrum(object):
         """
         if sides == self.sides:
             #nothing to be done is sides = :attr:`sides
+            if self.__psd is not None and self.modified is True:
+                return self.psd # out-of-date: recompute first
             return self.__psd
 
         if self.datatype == 'complex':
